@@ -15,6 +15,7 @@ import os
 from gsa import facts, ir, paths, summary
 from gsa.facts import Unit, rel, AnalysisBroken
 from gsa.report import Check
+from rules import c09
 
 TABLE = json.load(open(os.path.join(facts.VERIF, 'tables', 'c01.json')))
 UNITS = [Unit('st_pat', 'simplex_tree_pat.cpp', ['src/Simplex_tree/'], no_inst=True)]
@@ -191,6 +192,11 @@ def run(tier, replay=None):
     # ---- R5 descent guard
     run_r5(chk, [f for f in F.functions if f['inst'] in (0, 2)])
 
+    _by = {}
+    for _f in F.functions:
+        if _f.get('inst') in (0, 2) and _f.get('body') is not None and _f['file'].startswith(facts.REPO):
+            _by.setdefault(_f.get('cls') or _f.get('clsname') or '-', []).append(_f)
+    c09.run_assert_purity(chk, F, by=_by, min_count=30)
     chk.assumptions += ['clang 14 parser/Sema', 'class-local call resolution by name (overloads merged)',
                         'tables/c01.json exemptions', 'throwing paths carry no obligation']
     return chk
